@@ -61,6 +61,7 @@ type tk[T any] struct {
 }
 
 type tcol[T any] struct {
+	scratch []T
 	k   tk[T]
 	c   proto.ColumnOf[T]
 	raw proto.ColumnOf[T] // c without the ColNamed wrapper
@@ -81,11 +82,19 @@ func (c *tcol[T]) AppendBulk(vs []ref.Val) {
 		}
 		return
 	}
-	arr := make([]T, len(vs))
-	for i, v := range vs {
-		arr[i] = c.k.to(v)
+	// The caller's batch slice is reused between calls and cleared after each,
+	// the way a caller with one scratch slice per column works: AppendArr has
+	// to copy what it keeps.
+	arr := c.scratch[:0]
+	for _, v := range vs {
+		arr = append(arr, c.k.to(v))
 	}
 	c.c.AppendArr(arr)
+	var z T
+	for i := range arr {
+		arr[i] = z
+	}
+	c.scratch = arr
 }
 func (c *tcol[T]) Row(i int) ref.Val {
 	if c.k.manual {
